@@ -11,18 +11,25 @@ class Timeout(Exception):
 
 @contextlib.contextmanager
 def time_limit(seconds: float):
-    """Raise Timeout in the current (main) thread after `seconds` of wall time.
-    Used as the livelock watchdog around implementation runs (several defects of
-    the pinned tree are zero-delay spins that never end)."""
+    """Raise Timeout in the current (main) thread after `seconds` of CPU time of this process
+    (ITIMER_PROF), with a wall-clock backstop fifteen times longer (ITIMER_REAL).
+    Used as the livelock watchdog around implementation runs (several defects of the pinned
+    tree were zero-delay spins that never end).  CPU time, not wall time, is what a livelock
+    burns; a wall-clock limit alone raised false alarms when worker processes were starved
+    (first import in 14 fresh workers on a loaded machine took up to 17 s)."""
     def handler(signum, frame):
-        raise Timeout(f"wall-clock limit {seconds}s exceeded")
-    old = signal.signal(signal.SIGALRM, handler)
-    signal.setitimer(signal.ITIMER_REAL, seconds)
+        raise Timeout(f"time limit {seconds}s (cpu) / {seconds * 15}s (wall) exceeded")
+    old_prof = signal.signal(signal.SIGPROF, handler)
+    old_alrm = signal.signal(signal.SIGALRM, handler)
+    signal.setitimer(signal.ITIMER_PROF, seconds)
+    signal.setitimer(signal.ITIMER_REAL, seconds * 15)
     try:
         yield
     finally:
+        signal.setitimer(signal.ITIMER_PROF, 0)
         signal.setitimer(signal.ITIMER_REAL, 0)
-        signal.signal(signal.SIGALRM, old)
+        signal.signal(signal.SIGPROF, old_prof)
+        signal.signal(signal.SIGALRM, old_alrm)
 
 
 def shrink_list(items: list, still_fails, max_rounds: int = 200) -> list:
